@@ -1792,6 +1792,11 @@ class Compiler:
 
         # prepare new stream
         stream, append = self._get_translation_identifiers(node.name)
+        if self._current_slot and \
+                self._current_slot[-1][1] >= len(self._translations):
+            # The translation was opened outside of this slot filler
+            # (a function); the mapping is computed there.
+            body += [ast.Nonlocal([stream])]
         body += template("s = new_list", s=stream, new_list=self._new_list) + \
             template("a = s.append", a=append, s=stream)
 
@@ -1835,7 +1840,7 @@ class Compiler:
             key = "__slot_%s" % mangle(slot.name)
             fun = "__fill_%s" % mangle(slot.name)
 
-            self._current_slot.append(slot.name)
+            self._current_slot.append((slot.name, len(self._translations)))
 
             # The conversion helpers look up the translation settings
             # in the enclosing function; the filler has its own. It
@@ -1845,7 +1850,7 @@ class Compiler:
                 emit_func_convert_and_escape("__quote") + \
                 self.visit_Context(slot)
 
-            assert self._current_slot.pop() == slot.name
+            assert self._current_slot.pop()[0] == slot.name
 
             callbacks.append(
                 ast.FunctionDef(
